@@ -740,6 +740,13 @@ static void process_downstream_ack(int userid, int down_seq, int down_frag)
 		   ack, happens a lot with ping packets */
 		return;
 
+	if (users[userid].outpacket.sentlen <= 0)
+		/* Current fragment was never sent, so this cannot be its ack:
+		   it is an old ack whose 3-bit seqno matches again after
+		   wrapping around. Taking it would number the first fragment
+		   of this packet 1 instead of 0. */
+		return;
+
 	/* Received proper ack */
 	users[userid].outpacket.offset += users[userid].outpacket.sentlen;
 	users[userid].outpacket.sentlen = 0;
